@@ -43,6 +43,8 @@ type Fail struct {
 	Verify *VerifyObs `json:"-"`
 	// Earlier holds the signatures of the failures already recorded in this run (a later failure can be a consequence of an earlier one).
 	Earlier []string `json:"-"`
+	// EarlierAt holds the op index of each entry of Earlier.
+	EarlierAt []int `json:"-"`
 }
 
 // Oracles selects which property oracles run.
@@ -97,6 +99,7 @@ func Run(h History, or Oracles) (fails []Fail, st RunStats, err error) {
 		}
 		for _, p := range fails {
 			f.Earlier = append(f.Earlier, p.Sig)
+			f.EarlierAt = append(f.EarlierAt, p.At)
 		}
 		if or.Classify != nil {
 			or.Classify(h, at, &f)
